@@ -9,6 +9,7 @@
 #![allow(unused_imports, dead_code)]
 
 pub mod gen_display;
+pub mod gen_scope;
 pub mod model;
 pub mod ms;
 pub mod spec;
